@@ -107,7 +107,7 @@ def damp_items(rng, tier):
     for direction in ("in", "out"):
         for state in ("openSent", "openConfirm", "established"):
             hows = []
-            for code in (1, 2, 3, 4, 5, 7):
+            for code in (1, 2, 3, 4, 5, 7, 8, 200):       # every code other than Cease, assigned or not
                 hows.append((("recv-notif", S.frame(S.NOTIF, S.notif_body(code, rng.randint(0, 5), gen.rbytes(rng, rng.choice([0, 1, 3]))))), True))
             hows.append((("recv-notif", S.frame(S.NOTIF, S.notif_body(6, rng.randint(0, 8)))), False))
             hows.append((("send-bad", S.frame(9)), True))                              # we send (1,3)
@@ -119,11 +119,58 @@ def damp_items(rng, tier):
             hows.append((("fin", None), False))
             hows.append((("rst", None), False))
             if tier == "quick":
-                hows = hows[::2] + hows[-2:]
+                # a rotating third of the damping cases per (direction, state), so that every case is run somewhere,
+                # plus all the non-damping controls
+                k = len(out) % 3
+                damping = [h for h in hows if h[1]]
+                hows = damping[k::3] + [h for h in hows if not h[1]]
             for how, damp in hows:
                 out.append(Damp(sid, direction, state, how, damp))
                 sid += 1
     return out
+
+
+class HoldDownEnds(Damp):
+    """the hold-down period ends (timer shortened through the verif hook): the peer is retried and establishes again;
+    while it lasts connections are refused and nothing is dialled"""
+
+    def __init__(self, sid, direction, code):
+        Damp.__init__(self, sid, direction, "established", ("recv-notif", None), True)
+        self.code = code
+        self.tag = "holddown-ends.%s.code%d" % (direction, code)
+
+    def scenario(self):
+        c = "c1"
+        st = [["dial", c]] if self.direction == "in" else [["accept", c, 3000]]
+        st += [["recv", c, 1, 2000], ["send", c, OPENM.hex(), 0], ["send", c, KAM.hex(), 0], ["recv", c, 2, 1500], ["sleep", 20],
+               ["send", c, S.frame(S.NOTIF, S.notif_body(self.code, 1)).hex(), 0], ["recv_eof", c, 1000], ["sleep", 150],
+               ["dial", "p0"], ["recv", "p0", 1, 250], ["fullclose", "p0"], ["sleep", 1000]]
+        if self.direction == "in":
+            st += [["dial", "c2"]]
+        else:
+            st += [["drain"], ["accept", "c2", 2500]]
+        st += [["recv", "c2", 1, 1500], ["send", "c2", OPENM.hex(), 0], ["send", "c2", KAM.hex(), 0], ["recv", "c2", 2, 1500], ["sleep", 40]]
+        return {"id": self.sid, "local_as": 65001, "remote_as": 65000, "local_id": 0x0A000001, "hold": 90,
+                "passive": self.direction == "in", "idle_hold_ms": 100, "connect_retry_ms": 400, "caps": [], "on_open": None,
+                "handler": [], "est_writes": [], "holddown_ms": 900, "steps": st}
+
+    def check(self, r):
+        bad = []
+        damps = [e for e in r["events"] if e["kind"] == "m.damp"]
+        if not damps:
+            bad.append("NOTIFICATION code %d received in Established did not start a hold-down" % self.code)
+            return bad
+        p0 = [c for c in r["conns"] if c["name"] == "p0"]
+        if p0 and any(m["t"] == 1 for m in p0[0]["msgs"]):
+            bad.append("inbound connection served (OPEN sent) while the peer must be held down")
+        t_damp = damps[0]["at"]
+        early = [d for d in r["dials"] if t_damp + 30 < d < t_damp + 800]
+        if early:
+            bad.append("outbound attempt %d ms after the protocol error while the peer must be held down" % (early[0] - t_damp))
+        est = [cb["at"] for cb in r["cbs"] if cb["name"] == "OnEstablished" and cb["ph"] == "enter"]
+        if len(est) < 2:
+            bad.append("the hold-down period ended but the peer did not establish again (%s direction)" % self.direction)
+        return bad
 
 
 class Dropped(Damp):
@@ -163,6 +210,11 @@ class Dropped(Damp):
 
 def sys_part(tier, rng, rep, replay):
     cov = sysrun.run_convs(PID, damp_items(rng, tier), rep, extra_check=lambda c, e, o, r: c.check(r), par=32)
+    # the end of the hold-down: scenarios that shorten the timer run in a process of their own, one at a time
+    ends = [HoldDownEnds(900 + k, d, code) for k, (d, code) in enumerate((("in", 2), ("out", 3), ("in", 5), ("out", 7)))]
+    cove = sysrun.run_convs(PID, ends, rep, extra_check=lambda c, e, o, r: c.check(r), par=1)
+    cov["holddown_end_sessions"] = cove["evaluations"]
+    cov["evaluations"] = cov.get("evaluations", 0) + cove["evaluations"]
     covk = sysrun.run_convs(PID, [Dropped(950)], rep, extra_check=lambda c, e, o, r: c.check(r), par=1, kinds=("monitor",))
     cov["known_finding_reproductions"] = covk["evaluations"]
     cov["rule"] = ("sessions ended at OpenSent/OpenConfirm/Established on either direction by: a received NOTIFICATION of each code "
